@@ -415,11 +415,20 @@ func toolForErr[In, Out any](t *Tool, h ToolHandlerFor[In, Out], cache *SchemaCa
 				outval = elemZero
 			}
 		}
-		if outval == nil && outputResolved != nil && res.InputRequests == nil && res.StructuredContent == nil && !res.IsError {
+		if outval == nil && outputResolved != nil && res.InputRequests == nil {
 			// A nil output (possible only when Out is any) although an output schema
-			// is declared: treat it as JSON null, so that it is validated, and the
-			// defaults of an object-rooted schema are applied, like any other output.
-			outval = json.RawMessage("null")
+			// is declared.
+			switch {
+			case res.StructuredContent != nil:
+				// The handler set the structured content itself: that is the tool's
+				// output. Validate it (and apply defaults) like any other output,
+				// rather than returning it unchecked.
+				outval = res.StructuredContent
+			case !res.IsError:
+				// Treat it as JSON null, so that it is validated, and the defaults of
+				// an object-rooted schema are applied, like any other output.
+				outval = json.RawMessage("null")
+			}
 		}
 		if outval != nil {
 			outbytes, err := json.Marshal(outval)
